@@ -123,3 +123,94 @@ def run_logql(ck, n_quick=1500, n_thorough=40000, shard=4000):
     ck.extra["logql_skipped"] = skipped
     ck.sql_mismatch_cases = mism
     return cases
+
+
+# ---------------------------------------------------------------------- metric queries (C08)
+def ml_mcase(c):
+    return "(%d, %s, %s, %s, %d)" % (c["id"], c["script_ml"], "true" if c["ctx"]["finalize"] else "false", c["ctx_ml"],
+                                    max(1, len(c.get("sql") or [])))
+
+
+def eval_ocaml_metric(ck, name, cases):
+    """model SQL per metric case through the OCaml extraction; returns ({id: [sql bytes or None,...]}, {id: shortcut bool})"""
+    chunks = []
+    for k in range(0, len(cases), 40):
+        chunks.append("let chunk%d = [\n " % (k // 40) + ";\n ".join(ml_mcase(c) for c in cases[k:k + 40]) + "]\n")
+    txt = "".join(chunks) + "let cases = List.concat [" + "; ".join("chunk%d" % i for i in range(len(chunks))) + "]\n"
+    rc, out = ck.ocaml_eval(name, "ExtractLogql.v", "logqlplan", txt, "logqlm_driver.ml")
+    if rc != 0:
+        return None, None, out
+    res, short = {}, {}
+    for ln in out.splitlines():
+        parts = ln.split()
+        if len(parts) < 2:
+            continue
+        short[int(parts[0])] = parts[1] == "1"
+        res[int(parts[0])] = [None if p == "-" else bytes.fromhex(p) for p in parts[2:]]
+    return res, short, out
+
+
+def metric_case_coq(c):
+    if c.get("err") in ("plan", "process", "panic"):
+        sqls = "[None]"
+    else:
+        sqls = "[" + "; ".join("Some " + coq_string(s) for s in c["sql"]) + "]"
+    return "{| mc_id := %d%%Z; mc_script := %s; mc_final := %s; mc_ctx := %s; mc_sql := %s |}" % (
+        c["id"], c["script_coq"], "true" if c["ctx"]["finalize"] else "false", c["ctx_coq"], sqls)
+
+
+def compare_metric(ck, cases, name="logqlm", shard=4000):
+    """cases: harness output lines of --mode metric. Returns (usable, mismatching, skipped histogram); every usable
+    case gets c["m15"] = the model's AnalyzeMetrics15sShortcut verdict."""
+    usable = [c for c in cases if c.get("script_ml") and c.get("err") in (None, "", "plan", "process", "panic")]
+    skipped = {}
+    for c in cases:
+        if c not in usable:
+            skipped[c.get("err")] = skipped.get(c.get("err"), 0) + 1
+    mism = []
+    for k in range(0, len(usable), shard):
+        part = usable[k:k + shard]
+        res, short, out = eval_ocaml_metric(ck, name, part)
+        if res is None:
+            ck.obligation("LogQL metric SQL-text cases evaluated by the extracted model", False, out[-2000:])
+            return usable, None, skipped
+        for c in part:
+            got = res.get(c["id"])
+            want = observed(c)
+            c["m15"] = short.get(c["id"])
+            if got != want:
+                d = ""
+                for a, b in zip(got or [None], want):
+                    if a != b:
+                        d = first_diff(a, b)
+                        break
+                c["diff"] = d or "different number of statements: model %d impl %d" % (len(got or []), len(want))
+                mism.append(c)
+    return usable, mism, skipped
+
+
+def run_logql_metric(ck, n_quick=1200, n_thorough=30000):
+    """byte-exact SQL-text correspondence over generated LogQL metric queries; returns the harness cases"""
+    ok, out = ck.coq_make(["model/LogqlCases.vo"])
+    if not ok:
+        ck.obligation("LogQL planner model builds", False, out[-1500:])
+        return []
+    if not ck.go_build("logqlsql"):
+        ck.obligation("harness logqlsql builds against the repository", False, ck.build_out[-1500:])
+        return []
+    n = ck.n(n_quick, n_thorough)
+    outp = os.path.join(ck.work, "logqlsql_metric.jsonl")
+    rc, out = ck.go_run("logqlsql", ["--mode", "metric", "--seed", ck.seed, "--n", n, "--out", outp], timeout=1800)
+    if rc != 0:
+        ck.obligation("harness logqlsql --mode metric ran", False, out[-1500:])
+        return []
+    cases = [json.loads(l) for l in open(outp)]
+    usable, mism, skipped = compare_metric(ck, cases)
+    if mism is None:
+        return cases
+    ck.obligation("correspondence: render(process(plan_script ast) ctx) = SQL of the real LogQL planners, byte for byte, on %d metric queries" % len(usable),
+                  not mism, "; ".join("%s => %s" % (c["query"], c["diff"]) for c in mism[:3]))
+    ck.extra["logql_metric_sql_mismatches"] = [{"query": c["query"], "ctx": c["ctx"], "diff": c["diff"]} for c in mism[:20]]
+    ck.extra["logql_metric_skipped"] = skipped
+    ck.metric_mismatch_cases = mism
+    return cases
